@@ -14,7 +14,7 @@ LEVEL = {
  'C05': ("proof", "Foreign delete / pose update behaviours are proved to refuse (or drop) and leave the world unchanged; the owner field is set only at creation and participant ids are strictly increasing (C10).", "§10 C05"),
  'C06': ("proof", "leaveSession's postcondition over the whole view (entities, components, subscriptions, members, one delete relay per removed entity via content-keyed event counters, one leave relay) is proved with an inductive invariant over the departing participant's entity-id set.", "§10 C06"),
  'C07': ("proof", "Registry operations (Add/Remove/GetByGlobalID) are proved against a registry invariant (key = gid(id), ids live, gauge total); join success registers the session and the participant, last leave unregisters and closes.", "§10 C07"),
- 'C08': ("proof", "(i) no-panic obligations (nil dereference, index, division, nil-map write, type assertion, negative make) for every function under contract with all straight-line callees inlined, over unconstrained decoded messages; (ii) the connection loop: every iteration's events match the declared alternatives (idle timer reset before each handled message, failures lead to disconnect) and handleDisconnect runs exactly once before the loop exits (inductive invariant over the cancel flag); (iii) no blocking channel send in the loop's failure path; (iv) the connected-clients gauge is incremented once on connect and decremented once on disconnect on the same labels. The dagaz grid internals are covered only by a bounded stand-in (listed concrete inputs), labelled bounded.", "§10 C08"),
+ 'C08': ("proof", "(i) no-panic obligations (nil dereference, index, division, nil-map write, type assertion, negative make) for every function under contract with all straight-line callees inlined, over unconstrained decoded messages; (ii) the connection loop: every iteration's events match the declared alternatives (idle timer reset before each handled message, failures lead to disconnect) and handleDisconnect runs exactly once before the loop exits (inductive invariant over the cancel flag); (iii) no blocking channel send in the loop's failure path and no plain channel receive that can wait forever (blocking:chanrecv: a value is known to be buffered, or the channel is a context's Done()); (iv) the connected-clients gauge is incremented once on connect and decremented once on disconnect on the same labels. The dagaz grid internals are covered only by a bounded stand-in (listed concrete inputs), labelled bounded.", "§10 C08"),
  'C09': ("proof", "Lock discipline as a sufficient condition for data-race freedom on the declared fields and for deadlock freedom among the mutexes: every access to a guarded_by field in every function of models, websocket, modules, featureflag, receipt and http is proved to happen with its mutex held in a sufficient mode (or inside sync.Once.Do, or on an object still under construction), every acquisition respects the global level order (also through contracted callees and callbacks), and every function returns with the locks it entered with. Holds for all schedules and any number of connections.", "§10 C09"),
  'C10': ("proof", "SequentialIDGenerator.New/Reuse against the defined live-set view; monotone generators never reissue; type registration ids; new session ids are not live before.", "§10 C10"),
  'C11': ("proof", "HandleEntityUpdatePose behaviours (unknown, foreign, no pose: dropped with no effect; otherwise stored pose equals the update and one relay carries it); timing and coalescing are outside the technique.", "§10 C11"),
